@@ -85,7 +85,16 @@ pub fn write_dso_debug_stream(
         .get_program_header_address()
         .ok_or(SectionDsoDebugError::CouldNotFind("AT_PHDR in auxv"))? as usize;
 
-    let ph = PtraceDumper::copy_from_process(blamed_thread, phdr, SIZEOF_PHDR * phnum_max)?;
+    let ph_size = SIZEOF_PHDR
+        .checked_mul(phnum_max)
+        .ok_or(SectionDsoDebugError::CouldNotFind("valid AT_PHNUM in auxv"))?;
+    let ph = PtraceDumper::copy_from_process(blamed_thread, phdr, ph_size)?;
+    if ph.len() < ph_size {
+        // A short read, parsing the headers would panic
+        return Err(SectionDsoDebugError::CouldNotFind(
+            "program headers in process memory",
+        ));
+    }
     let program_headers;
     #[cfg(target_pointer_width = "64")]
     {
@@ -108,7 +117,9 @@ pub fn write_dso_debug_stream(
         // Adjust base address with the virtual address of the PT_LOAD segment
         // corresponding to offset 0
         if ph.p_type == goblin::elf::program_header::PT_LOAD && ph.p_offset == 0 {
-            base -= ph.p_vaddr as usize;
+            // The values come from the (possibly corrupted) memory of the target,
+            // the arithmetic has to wrap like the pointer arithmetic in Breakpad does
+            base = base.wrapping_sub(ph.p_vaddr as usize);
         }
         if ph.p_type == goblin::elf::program_header::PT_DYNAMIC {
             dyn_addr = ph.p_vaddr;
@@ -121,7 +132,7 @@ pub fn write_dso_debug_stream(
         ));
     }
 
-    dyn_addr += base as ElfAddr;
+    dyn_addr = dyn_addr.wrapping_add(base as ElfAddr);
 
     let dyn_size = std::mem::size_of::<goblin::elf::Dyn>();
     let mut r_debug = 0usize;
@@ -131,17 +142,20 @@ pub fn write_dso_debug_stream(
     // DSOs loaded into the program. If this information is indeed available,
     // dump it to a MD_LINUX_DSO_DEBUG stream.
     loop {
-        let dyn_data = PtraceDumper::copy_from_process(
-            blamed_thread,
-            dyn_addr as usize + dynamic_length,
-            dyn_size,
-        )?;
+        let entry_addr = (dyn_addr as usize)
+            .checked_add(dynamic_length)
+            .ok_or(SectionDsoDebugError::CouldNotFind("end of dynamic section"))?;
+        let dyn_data = PtraceDumper::copy_from_process(blamed_thread, entry_addr, dyn_size)?;
         dynamic_length += dyn_size;
 
         // goblin::elf::Dyn doesn't have padding bytes
         let (head, body, _tail) = unsafe { dyn_data.align_to::<goblin::elf::Dyn>() };
-        assert!(head.is_empty(), "Data was not aligned");
-        let dyn_struct = &body[0];
+        // The read can be short, and the data is not guaranteed to be aligned
+        let (true, Some(dyn_struct)) = (head.is_empty(), body.first()) else {
+            return Err(SectionDsoDebugError::CouldNotFind(
+                "complete entry in dynamic section",
+            ));
+        };
 
         let debug_tag = goblin::elf::dynamic::DT_DEBUG;
         if dyn_struct.d_tag == debug_tag {
@@ -164,13 +178,16 @@ pub fn write_dso_debug_stream(
 
     // goblin::elf::Dyn doesn't have padding bytes
     let (head, body, _tail) = unsafe { debug_entry_data.align_to::<RDebug>() };
-    assert!(head.is_empty(), "Data was not aligned");
-    let debug_entry = &body[0];
+    let (true, Some(debug_entry)) = (head.is_empty(), body.first()) else {
+        return Err(SectionDsoDebugError::CouldNotFind("complete r_debug"));
+    };
 
     // Count the number of loaded DSOs
     let mut dso_vec = Vec::new();
     let mut curr_map = debug_entry.r_map;
-    while curr_map != 0 {
+    // The list lives in the memory of the target, it can be corrupted into a cycle
+    let mut seen_maps = std::collections::HashSet::new();
+    while curr_map != 0 && seen_maps.insert(curr_map) {
         let link_map_data = PtraceDumper::copy_from_process(
             blamed_thread,
             curr_map,
@@ -179,8 +196,9 @@ pub fn write_dso_debug_stream(
 
         // LinkMap is repr(C) and doesn't have padding bytes, so this should be safe
         let (head, body, _tail) = unsafe { link_map_data.align_to::<LinkMap>() };
-        assert!(head.is_empty(), "Data was not aligned");
-        let map = &body[0];
+        let (true, Some(map)) = (head.is_empty(), body.first()) else {
+            return Err(SectionDsoDebugError::CouldNotFind("complete link_map"));
+        };
 
         curr_map = map.l_next;
         dso_vec.push(map.clone());
